@@ -28,7 +28,7 @@ NAME_POOL = {
 }
 SEPS = ["", " ", "_", ".", "-", "+", " #"]
 GROUPS = ["Main", "RF part", "G.3", "IO", "Main 2"]
-PHASE_NAMES = ["sleep", "active", "tx", "rx burst", "idle", "move"]
+PHASE_NAMES = ["sleep", "active", "tx", "rx burst", "idle", "move", "{boost}", "burst {1 s}"]
 SRC_VOLT = [3.3, 5.0, 12.0, 24.0, 48.0, 1.8, 3.7, 230.0]
 
 
